@@ -174,8 +174,11 @@ Print Assumptions C13_distance_zero_iff_partial.
 (** ** No panic *)
 
 (** PARTIAL.  Missing for the unconditional statement (each is refuted below):
-    (1) the parsed (offset,length) ranges of a recorded event handed to the explainer are
-        not more than the references of the paired measurement (D20);
+    (1) every parsed (offset,length) range of a recorded event handed to the explainer is
+        read after fewer chunk-making ranges than the paired measurement has references
+        ([index_safe]: a range makes a chunk when its length is not 0, or - possibly - when
+        the measurement has a hard-coded reference; EMPTY ranges over image references do
+        not count, so the list may be longer than the reference list) (D20);
     (2) a paired simulated event has a measurement whenever TXT registers are present and
         the digests differ (startup-locality entries have none);
     (3) those ranges lie inside the image.
@@ -201,6 +204,36 @@ Example C13_no_panic_example :
              = Ok (rs, [IMismatch 0], None) /\ map re_status rs = [StMismatch].
 Proof. exact witness_one_pair_ok. Qed.
 
+(** ... also by one whose event data holds MORE pairs than the measurement has references
+    (one real pair and two empty ones, the empty ones read first, one reference): its
+    ranges satisfy (1) and (3), and the entry is reported as a plain mismatch *)
+Example C13_no_panic_empty_pairs_example :
+  (forall p, parse_event_data (mkEv 0 EV_POST_CODE (w_one_pair ++ w_empty_pair ++ w_empty_pair) (Some (mkDg 4 (w_dg 2)))) w_isz = Ok p ->
+     (length (pr_ranges p) > length (m_refs w_meas))%nat /\
+     index_safe (m_refs w_meas) (pr_ranges p) /\ Forall (range_readable w_isz) (pr_ranges p)) /\
+  exists rs, reproduce w_hp 4 w_isz false w_cmds w_evlog (Some w_log_real_empty_empty) 4 w_st ([false], [false])
+             = Ok (rs, [IMismatch 0], None) /\ map re_status rs = [StMismatch].
+Proof. split; [exact witness_empty_pairs_safe|exact witness_empty_pairs_ok]. Qed.
+
+(** (1) is implied by the plain count "not more ranges than references" ... *)
+Theorem C13_index_safe_of_length :
+  forall refs ranges, (length ranges <= length refs)%nat -> index_safe refs ranges.
+Proof. exact index_safe_of_length. Qed.
+Print Assumptions C13_index_safe_of_length.
+
+(** ... and is EXACT for a measurement of image ranges only (no hard-coded reference, as
+    the firmware-volume measurements are): rangesToChunks panics on its reference look-up
+    iff some range of the list comes after at least as many NON-EMPTY ranges as the
+    measurement has references - whatever the number of empty ranges, wherever they are. *)
+Theorem C13_explainer_index_panic_iff :
+  forall isz mm ranges,
+  has_raw (m_refs mm) = false ->
+  (ranges_to_chunks isz (Some mm) ranges [] = Panic <->
+   exists pre r post, ranges = pre ++ r :: post /\
+     (length (m_refs mm) <= length (filter nonempty pre))%nat).
+Proof. exact ranges_to_chunks_panic_iff. Qed.
+Print Assumptions C13_explainer_index_panic_iff.
+
 (** a readable range in plain arithmetic: it ends at or below 4 GiB *)
 Theorem C13_range_readable_iff :
   forall isz off len,
@@ -219,6 +252,14 @@ Proof.
   exists w_hp, 4, w_isz, false, w_cmds, w_evlog, w_log_d20, 4, w_st, ([false], [false]). exact witness_d20.
 Qed.
 Print Assumptions C13_no_panic_refuted.
+
+(** REFUTED (same finding): the second pair need not have a length - an EMPTY pair stored
+    before a real one (so read after it) is looked up at References[1] of 1 as well, while
+    the same two pairs in the other order are fine (C13_no_panic_empty_pairs_example). *)
+Theorem C13_no_panic_empty_pair_refuted :
+  reproduce w_hp 4 w_isz false w_cmds w_evlog (Some w_log_empty_real) 4 w_st ([false], [false]) = Panic.
+Proof. exact witness_empty_after_real. Qed.
+Print Assumptions C13_no_panic_empty_pair_refuted.
 
 (** REFUTED (finding C13-nil-measurement-deref): with TXT registers present, a recorded
     startup-locality entry whose digest differs from the simulated one panics (the
